@@ -40,7 +40,9 @@ def _get_axes(*arrays):
             axis = o.axes[dim]
 
             # update values
-            if common_axis is None or (common_axis.size==1 and axis.size > 1):
+            # (a singleton is broadcast to any other size, 0 included, and the placeholder label None
+            # of a dimension inserted by align_dims gives way to an actual label)
+            if common_axis is None or (common_axis.size==1 and (axis.size != 1 or common_axis.values[0] is None)):
                 common_axis = axis
 
             # Test alignment for non-singleton axes
